@@ -33,22 +33,47 @@ class Problem:
         """release what a replayed state holds (worker threads); called when the explorer is done with it"""
 
 
+SKIP_MODEL = {'cell_map', 'dep_graph', 'excel', 'log', '_eval', 'eval', 'evaluate', 'Cell', 'CellRange', 'graph_todos', 'range_todos'}
+SKIP_CELL = {'excel', 'address', 'addresses', 'id', 'formula', 'size'}
+
+
+def summ(v, depth=0):
+    """hashable summary of an attribute value: simple values type-tagged, cells by address, containers element-wise,
+    anything else by its type name (coarser only for objects no operation can compare)"""
+    if v is None or isinstance(v, (bool, int, float, str, bytes)):
+        return tag(v)
+    a = getattr(getattr(v, 'address', None), 'address', None)
+    if isinstance(a, str):
+        return ('cell', a)
+    if depth > 3:
+        return ('deep', type(v).__name__)
+    if isinstance(v, (list, tuple)):
+        return ('seq', tuple(summ(x, depth + 1) for x in v[:300]))
+    if isinstance(v, (set, frozenset)):
+        return ('set', tuple(sorted(repr(summ(x, depth + 1)) for x in v)))
+    if isinstance(v, dict):
+        return ('dict', tuple(sorted((repr(summ(k, depth + 1)), repr(summ(x, depth + 1))) for k, x in v.items())))
+    return ('obj', type(v).__name__)
+
+
 def canon_compiler(m):
-    """Canonical, hashable summary of every field later operations read."""
+    """Canonical, hashable summary of the model: EVERY attribute of the compiler and of each cell / range node (simple
+    values, containers of them, references to cells), the graph, and the lengths of the work queues -- so that a field
+    this harness has never heard of still separates the states it distinguishes (finer keys only cost time)."""
     try:
         cells = []
         for addr, c in m.cell_map.items():
             d = c.__dict__
-            if '_value' in d:
-                v = (tag(d.get('_value')), tag(d.get('_prev_value')), bool(d.get('wip')))
-            else:
-                v = tag(d.get('value', None))
-            cells.append((addr, v, bool(c.formula), type(c).__name__))
+            f = d.get('formula')
+            code = getattr(f, 'python_code', None) if f else None
+            rest = tuple(sorted((k, repr(summ(v))) for k, v in d.items() if k not in SKIP_CELL))
+            cells.append((addr, type(c).__name__, code, rest))
         cells.sort(key=repr)
         edges = sorted((u.address.address, v.address.address) for u, v in m.dep_graph.edges())
         nodes = sorted(n.address.address for n in m.dep_graph.nodes())
         todo = (len(m.graph_todos or ()), len(m.range_todos or ()))
-        return ('K', tuple(cells), tuple(edges), tuple(nodes), todo)
+        model = tuple(sorted((k, repr(summ(v))) for k, v in m.__dict__.items() if k not in SKIP_MODEL))
+        return ('K', tuple(cells), tuple(edges), tuple(nodes), todo, model)
     except Exception as exc:   # introspection failed: never a verdict
         return ('NOKEY', repr(exc))
 
